@@ -5,7 +5,7 @@ namespace Restli.Codec
 open Restli
 
 def showEncErr : EncErr → String
-  | .enum => "err enum" | .union => "err union" | .illTyped => "err illtyped" | .fuel => "fuel"
+  | .enum => "err enum" | .union => "err other" | .illTyped => "err illtyped" | .fuel => "fuel"
 
 /-- `batchenc <module> <env> <ty> <excl> ((KEYHEX value)…)`: compact JSON -/
 def opBatchEnc (args : List Sexp) : String :=
